@@ -3,7 +3,7 @@
    result, length + hash of returned bytes, Len of both buffers, per-class free counts).
    Evaluated with vm_compute by ./check C06 and ./check C08. *)
 From Coq Require Import List ZArith Bool Arith.
-From Shm Require Import Gen.Consts Model.LinkedBuffer.
+From Shm Require Import Gen.Consts Gen.SwitchC06 Model.LinkedBuffer.
 Import ListNotations.
 Close Scope Z_scope.
 Open Scope nat_scope.
@@ -21,9 +21,11 @@ Definition bhash (bs : list byte) : Z := fold_left (fun h b => ((h * 31 + b + 1)
 Record obs := { o_cls : Z;    (* 0 ok, 1 error, 2 panic, 3 blocked *)
                 o_n : Z;      (* numeric result (n, byte) or -1 *)
                 o_dlen : Z; o_dhash : Z;   (* returned bytes, or -1 / 0 *)
-                o_rlen : Z; o_slen : Z; o_free : list Z }.
+                o_rlen : Z; o_slen : Z;    (* direction 0: Len of B's receive buffer, of A's send buffer *)
+                o_rlen1 : Z; o_slen1 : Z;  (* direction 1: Len of A's receive buffer, of B's send buffer *)
+                o_free : list Z }.
 
-Record lcase := { c_cfg : list (nat * nat); c_ops : list op; c_obs : list obs }.
+Record lcase := { c_cfg : list (nat * nat); c_ops : list dop; c_obs : list obs }.
 
 Definition res_n (r : res) : Z :=
   match r with RN n => Z.of_nat n | RB b => b | _ => (-1)%Z end.
@@ -47,26 +49,33 @@ Definition lease_ok (m : shm) (le : lease) : bool :=
     | None => false
     end
   else true.
-Definition leases_ok (s : sys) : bool := forallb (lease_ok (mem s)) (leases (rcv s)).
+Definition leases_ok (D : dsys) : bool :=
+  forallb (lease_ok (d_mem D)) (leases (h_rcv (d_0 D))) && forallb (lease_ok (d_mem D)) (leases (h_rcv (d_1 D))).
 
 (* field codes: 1 class, 2 n, 3 data length, 4 data hash, 5 receive Len, 6 send Len, 7 free counts,
-   8 model lease broken, 9 observation list shorter/longer than the run *)
-Definition cmp (s' : sys) (r : res) (o : obs) : Z :=
+   8 model lease broken, 9 observation list shorter/longer than the run, 10 / 11 receive / send Len of
+   direction 1 *)
+Definition cmp (s' : dsys) (r : res) (o : obs) : Z :=
   if negb (o_cls o =? 0)%Z then 1%Z
   else if negb (res_n r =? o_n o)%Z then 2%Z
   else if negb (res_dlen r =? o_dlen o)%Z then 3%Z
   else if negb (res_dhash r =? o_dhash o)%Z then 4%Z
-  else if negb (len (rcv s') =? o_rlen o)%Z then 5%Z
-  else if negb (len (snd s') =? o_slen o)%Z then 6%Z
-  else if negb (zlist_eqb (map Z.of_nat (free_counts (mem s'))) (o_free o)) then 7%Z
+  else if negb (len (h_rcv (d_0 s')) =? o_rlen o)%Z then 5%Z
+  else if negb (len (h_snd (d_0 s')) =? o_slen o)%Z then 6%Z
+  else if negb (len (h_rcv (d_1 s')) =? o_rlen1 o)%Z then 10%Z
+  else if negb (len (h_snd (d_1 s')) =? o_slen1 o)%Z then 11%Z
+  else if negb (zlist_eqb (map Z.of_nat (free_counts (d_mem s'))) (o_free o)) then 7%Z
   else if negb (leases_ok s') then 8%Z
   else 0%Z.
 
-Fixpoint run_cmp (s : sys) (ops : list op) (os : list obs) (i : nat) : option (nat * Z) :=
+(* the model follows the swap decision the translator found in stream.go (Gen/SwitchC06.v) *)
+Definition mstep := dstep sw_reuse_needs_len0 sw_reuse_needs_one_slice.
+
+Fixpoint run_cmp (s : dsys) (ops : list dop) (os : list obs) (i : nat) : option (nat * Z) :=
   match ops, os with
   | [], [] => None
   | o :: ops', ob :: os' =>
-    match step s o with
+    match mstep s o with
     | Ok (r, s') => let c := cmp s' r ob in if (c =? 0)%Z then run_cmp s' ops' os' (S i) else Some (i, c)
     | Err _ => if (o_cls ob =? 1)%Z then None else Some (i, 1%Z)       (* the run stops at an error *)
     | Panic _ => if (o_cls ob =? 2)%Z then None else Some (i, 1%Z)     (* ... and at a panic *)
@@ -75,7 +84,7 @@ Fixpoint run_cmp (s : sys) (ops : list op) (os : list obs) (i : nat) : option (n
   | _, _ => Some (i, 9%Z)
   end.
 
-Definition check_case (c : lcase) : option (nat * Z) := run_cmp (init_sys (c_cfg c)) (c_ops c) (c_obs c) 0.
+Definition check_case (c : lcase) : option (nat * Z) := run_cmp (init_dsys (c_cfg c)) (c_ops c) (c_obs c) 0.
 
 Fixpoint mismatches_from (n : nat) (cs : list lcase) : list (nat * nat * Z) :=
   match cs with
@@ -87,16 +96,16 @@ Fixpoint mismatches_from (n : nat) (cs : list lcase) : list (nat * nat * Z) :=
   end.
 Definition mismatches := mismatches_from 0.
 
-(* diagnostics: what the model says for op i of a case *)
-Fixpoint model_obs (s : sys) (ops : list op) : list (Z * Z * Z * Z * Z * Z * list Z) :=
+(* diagnostics: what the model says for the ops of a case *)
+Fixpoint model_obs (s : dsys) (ops : list dop) : list (Z * Z * Z * Z * list Z * list Z) :=
   match ops with
   | [] => []
   | o :: r =>
-    match step s o with
-    | Ok (x, s') => (0%Z, res_n x, res_dlen x, res_dhash x, len (rcv s'), len (snd s'),
-                     map Z.of_nat (free_counts (mem s'))) :: model_obs s' r
-    | Err e => [(1%Z, e, 0%Z, 0%Z, 0%Z, 0%Z, [])]
-    | Panic w => [(2%Z, w, 0%Z, 0%Z, 0%Z, 0%Z, [])]
-    | Blocked => (3%Z, 0%Z, 0%Z, 0%Z, len (rcv s), len (snd s), map Z.of_nat (free_counts (mem s))) :: model_obs s r
+    let lens D := [len (h_rcv (d_0 D)); len (h_snd (d_0 D)); len (h_rcv (d_1 D)); len (h_snd (d_1 D))] in
+    match mstep s o with
+    | Ok (x, s') => (0%Z, res_n x, res_dlen x, res_dhash x, lens s', map Z.of_nat (free_counts (d_mem s'))) :: model_obs s' r
+    | Err e => [(1%Z, e, 0%Z, 0%Z, [], [])]
+    | Panic w => [(2%Z, w, 0%Z, 0%Z, [], [])]
+    | Blocked => (3%Z, 0%Z, 0%Z, 0%Z, lens s, map Z.of_nat (free_counts (d_mem s))) :: model_obs s r
     end
   end.
